@@ -3,9 +3,11 @@ package gethdiff
 // Directed scenarios: the situations DESIGN.md / the code reading single out, run before the random cases.
 
 import (
+	"fmt"
 	"math/big"
 
 	"github.com/ethereum/go-ethereum/common"
+	ethtypes "github.com/ethereum/go-ethereum/core/types"
 	"github.com/ethereum/go-ethereum/crypto"
 
 	. "verifharness/hx"
@@ -137,6 +139,42 @@ func directedScenarios(w *world) []*scenario {
 		p.call(opCALL, "CALL", w.emptyExisting, Bi(0), nil, 0)
 		p.end(endSelfdestruct, w.absent[0])
 	})}, nil, nil, callTx(c[0], 0, 400000), callTx(w.emptyExisting, 0, 50000), callTx(w.absent[0], 0, 50000))
+	// everything a reverted frame did to the access list, the refund counter, the logs and the self-destruct set must be
+	// gone: a DELEGATECALL frame (same storage context) warms slots and addresses, clears a slot (refund), logs,
+	// self-destructs, then fails; the caller then touches the same slots / addresses and reports GAS
+	for ei, endKind := range []int{endRevert, endInvalid} {
+		add(fmt.Sprintf("reverted-frame-leaves-no-trace-%d", ei), map[int][]byte{0: build(func(p *prog) {
+			p.sload(Bi(0))
+			p.call(opDELEGATECALL, "DELEGATECALL", c[1], Bi(0), Bi(100000), 0)
+			p.env(opGAS, "GAS")
+			p.sload(Bi(1))
+			p.env(opGAS, "GAS")
+			p.sstore(Bi(2), Bi(7))
+			p.env(opGAS, "GAS")
+			p.ext(opBALANCE, "BALANCE", w.absent[1])
+			p.env(opGAS, "GAS")
+			p.sstore(Bi(1), Bi(0))
+			p.call(opCALL, "CALL", c[2], Bi(0), Bi(100000), 0)
+			p.ext(opEXTCODESIZE, "EXTCODESIZE", c[3])
+			p.env(opGAS, "GAS")
+			p.end(endReturn, common.Address{})
+		}), 1: build(func(p *prog) {
+			p.sload(Bi(1))
+			p.sstore(Bi(2), Bi(9))
+			p.sstore(Bi(1), Bi(0))
+			p.ext(opBALANCE, "BALANCE", w.absent[1])
+			p.logn(1, 8, []*big.Int{Bi(5)})
+			p.end(endKind, common.Address{})
+		}), 2: build(func(p *prog) {
+			p.ext(opEXTCODEHASH, "EXTCODEHASH", c[3])
+			p.sstore(Bi(1), Bi(0))
+			p.logn(0, 4, nil)
+			p.call(opCALL, "CALL", c[3], Bi(1), nil, 0)
+			p.end(endKind, common.Address{})
+		}), 3: build(func(p *prog) { p.end(endSelfdestruct, w.absent[0]) })},
+			nil, nil, txSpec{Sender: 0, To: &c[0], Value: Bi(0), Gas: 400000, Type: 1, AL: ethtypes.AccessList{{Address: c[0], StorageKeys: []common.Hash{common.BigToHash(Bi(3))}}}},
+			callTx(c[3], 0, 60000))
+	}
 	return out
 }
 
